@@ -59,6 +59,29 @@ M["m28-C01-autoalias-also-drops-subquery-orderby"] = ("C01", [(Q, '''           
                 selectable._orderbys = []  # ORDER BY without LIMIT in a derived table is a no-op
             self._subquery_count = sub_query_count + 1
 ''')])
+M["m29-C01-table-for_-strips-alias-of-its-argument"] = ("C01", [(Q, '''        self._for = temporal_criterion
+''', '''        if getattr(temporal_criterion, "alias", None):
+            temporal_criterion.alias = None  # a FOR clause cannot carry an alias
+        self._for = temporal_criterion
+''')])
+M["m51-C13-columns-after-rows-restarts-the-column-list"] = ("C13", [(Q, '''        if terms and isinstance(terms[0], (list, tuple)):
+            terms = terms[0]  # type:ignore[assignment]
+
+        for term in terms:
+            if isinstance(term, str):
+                term = Field(term, table=self._insert_table)
+            self._columns.append(term)
+''', '''        if terms and isinstance(terms[0], (list, tuple)):
+            terms = terms[0]  # type:ignore[assignment]
+
+        if self._values and self._columns:
+            self._columns = []  # a column list given after the rows replaces the earlier one
+
+        for term in terms:
+            if isinstance(term, str):
+                term = Field(term, table=self._insert_table)
+            self._columns.append(term)
+''')])
 M["m20-C02-append-render-pop"] = ("C02", [(PG, '''            from_clauses = list(self._from)
             if self._joins:
                 from_clauses.append(
